@@ -207,7 +207,7 @@ def record_and_validate(ctx, jobs, module, cfg, prop_of=None, par=8):
         rej, gen, dist, out = validate_trace(ctx, module, cfg, path)
         return name, path, n, rej, gen, dist
 
-    with cf.ThreadPoolExecutor(max_workers=par) as ex:
+    with cf.ThreadPoolExecutor(max_workers=par if ctx.quick else max(par, 12)) as ex:
         results = list(ex.map(one, jobs))
     for name, path, n, rej, gen, dist in results:
         ctx.traces += 1
@@ -272,8 +272,10 @@ def finish(ctx, level="model_checking", rule=None):
         "wall_s": round(time.time() - ctx.t0, 1),
         "violations": len(real),
     }
-    os.makedirs(os.path.join(VERIF, "evidence"), exist_ok=True)
-    with open(os.path.join(VERIF, "evidence", ctx.pid + ".json"), "w") as f:
+    # bin/seedtest runs the checks against deliberately broken trees: its evidence goes to a scratch directory
+    evdir = os.environ.get("VERIF_EVIDENCE_DIR") or os.path.join(VERIF, "evidence")
+    os.makedirs(evdir, exist_ok=True)
+    with open(os.path.join(evdir, ctx.pid + ".json"), "w") as f:
         json.dump(ev, f, indent=1)
     for d in ctx.drift:
         print("MODEL-DRIFT: property=%s %s" % (ctx.pid, d))
